@@ -112,7 +112,12 @@ def run_case(cs, ctx):
                              getter='get_results', bf=bf), case)
             return False
         if bf:
-            facts['text_wo_time'] = '\n'.join(l for l in txt.split('\n') if not l.startswith(('time_', '# Results')))
+            try:
+                pb = op.parse_bf(txt)
+                facts['text_wo_time'] = repr((pb['infeasible'], sorted(pb['vals'].items())))
+            except op.ParseError:
+                ctx.cnt('unobservable_results_do_not_parse')
+                return False
         else:
             try:
                 pr = op.parse_results(txt)
